@@ -19,8 +19,9 @@ Valid(bs, sh) == (sh.fault \/ sh.nfaults = 1) /\
 \* the definition is built operation by operation (so that -simulate can walk large spaces),
 \* then the client exchange runs on operation k
 Init == /\ \E bs \in {"document", "rpc"}, tr \in {SOAPHTTP, "http://example.com/other-transport"}, ty \in {"inline", "imported", "wsdl-import"},
-              hf \in {"qualified", "unqualified"}, nh \in {1, 2} : (hf = "qualified" \/ ty = "inline") /\
-             d = [tns |-> "urn:svc", bindingStyle |-> bs, location |-> "http://example.com/svc", transport |-> tr, types |-> ty, hdrForm |-> hf, nhdr |-> nh, ops |-> <<>>]
+              hf \in {"qualified", "unqualified"}, nh \in {1, 2}, bn \in {"tns", "other"} :
+              (hf = "qualified" \/ ty = "inline") /\ (bn = "tns" \/ (nh = 1 /\ hf = "qualified" /\ bs = "rpc")) /\
+             d = [tns |-> "urn:svc", bindingStyle |-> bs, location |-> "http://example.com/svc", transport |-> tr, types |-> ty, hdrForm |-> hf, nhdr |-> nh, bodyNs |-> bn, ops |-> <<>>]
         /\ k = 0 /\ inputOk \in BOOLEAN
         /\ c = CInit(<< <<"x-user", "1">> >>)
 AddOp == /\ k = 0 /\ Len(d.ops) < MaxOps
